@@ -136,6 +136,75 @@ func body(writers int, reconnect bool) func(s *vsched.Sched) {
 	}
 }
 
+// gapBody: the log holds an entry that every replica refuses at apply time (a sequential put with
+// fewer deltas than the existing keys of the prefix): that offset has no batch. Subscribers that
+// start before it, live or resuming, must receive every other offset once, in order.
+func gapBody() func(s *vsched.Sched) {
+	return func(s *vsched.Sched) {
+		s.Explore(false)
+		env := oxc.NewEnv(s)
+		net := oxc.NewNet()
+		kvf := oxc.NewObsFactory(env.Dir)
+		lc, err := server.NewLeaderController(server.Config{NotificationsRetentionTime: time.Hour}, "ns", 1, net, env.WalFactory("n1", 64*1024, true), kvf)
+		if err == nil {
+			_, err = lc.NewTerm(&proto.NewTermRequest{Namespace: "ns", Shard: 1, Term: 1, Options: &proto.NewTermOptions{EnableNotifications: true}})
+		}
+		if err == nil {
+			_, err = lc.BecomeLeader(context.Background(), &proto.BecomeLeaderRequest{Namespace: "ns", Shard: 1, Term: 1, ReplicationFactor: 1, FollowerMaps: map[string]*proto.EntryId{}})
+		}
+		if err != nil {
+			s.Fail("harness-setup", err.Error())
+			return
+		}
+		w := func(req *proto.WriteRequest) error {
+			_, err := lc.WriteBlock(context.Background(), req)
+			return err
+		}
+		// offset 0: a key with two numeric parts under prefix "q"
+		if err := w(&proto.WriteRequest{Shard: oxh.I64(1), Puts: []*proto.PutRequest{{Key: "q", Value: []byte("v"), PartitionKey: oxh.Str("q"), SequenceKeyDelta: []uint64{1, 1}}}}); err != nil {
+			s.Fail("harness-setup", err.Error())
+			return
+		}
+		s.Settle()
+		s.Explore(true)
+		live := &sub{}
+		live.ctx, live.cnl = context.WithCancel(context.Background())
+		a := int64(0)
+		lc.GetNotifications(live.ctx, &proto.NotificationsRequest{Shard: 1, StartOffsetExclusive: &a}, live)
+		refused := false
+		vsched.Go(func() {
+			// offset 1: refused by every replica (one delta, the prefix has two-part keys)
+			if err := w(&proto.WriteRequest{Shard: oxh.I64(1), Puts: []*proto.PutRequest{{Key: "q", Value: []byte("v"), PartitionKey: oxh.Str("q"), SequenceKeyDelta: []uint64{1}}}}); err != nil {
+				refused = true
+			}
+			// offsets 2 and 3
+			_ = w(&proto.WriteRequest{Shard: oxh.I64(1), Puts: []*proto.PutRequest{{Key: "k2", Value: []byte("v")}}})
+			_ = w(&proto.WriteRequest{Shard: oxh.I64(1), Puts: []*proto.PutRequest{{Key: "k3", Value: []byte("v")}}})
+		})
+		s.Settle()
+		// a second subscriber resumes from offset 0 once everything is committed
+		late := &sub{}
+		late.ctx, late.cnl = context.WithCancel(context.Background())
+		lc.GetNotifications(late.ctx, &proto.NotificationsRequest{Shard: 1, StartOffsetExclusive: &a}, late)
+		s.Settle()
+		live.cnl()
+		late.cnl()
+		s.Explore(false)
+		if !refused {
+			s.Fail("harness-setup", "the request meant to be refused at apply time was accepted")
+			return
+		}
+		for name, sb := range map[string]*sub{"live": live, "resuming": late} {
+			got := offsets(sb.got)
+			if fmt.Sprint(got) != "[2 3]" {
+				s.Fail("notification-gap-or-duplicate", fmt.Sprintf("%s subscriber positioned at offset 0, log = [0: applied, 1: refused by every replica, 2: applied, 3: applied]: received offsets %v, expected [2 3]", name, got))
+			}
+		}
+		s.Data = fmt.Sprint(offsets(live.got), offsets(late.got))
+		_ = lc.Close()
+	}
+}
+
 // vclock reads the scheduler's virtual clock.
 type vclock struct{ s *vsched.Sched }
 
@@ -216,6 +285,7 @@ func scenarios(tier string) []sched.Scenario {
 		{Name: "1writer", Cfg: cfg, MaxDev: d, Body: body(1, false)},
 		{Name: "2writers", Cfg: cfg, MaxDev: d, Body: body(2, false)},
 		{Name: "2writers-reconnect", Cfg: cfg, MaxDev: d, Body: body(2, true)},
+		{Name: "offset-without-batch", Cfg: cfg, MaxDev: d, Body: gapBody()},
 		{Name: "trim-round-vs-commit", Cfg: cfg, MaxDev: 3, Body: trimBody(), HorizonKey: "subscriber-spins-without-receiving"},
 	}
 	if tier == "thorough" {
